@@ -11,7 +11,7 @@ RULE = ("1-5 seeded well-formed sequences (overlapping / abutting / nested / ide
         "contract decides sound union / fused notes / duration max / signatures kept; the driver re-merges in a permuted "
         "order and compares notes. Non-trivial: >= 2 non-empty inputs overlapping in time.")
 PLAN = {"quick": {"cases": 5000, "jobs": 4, "timeout": 600},
-        "thorough": {"cases": 300000, "jobs": 16, "timeout": 3000, "budget_s": 420}}
+        "thorough": {"cases": 2000000, "jobs": 16, "timeout": 3000, "budget_s": 360}}
 FLOORS = {"quick": {"merge.fused_notes.armed": 8000, "c15.fusion_happened": 1000, "c15.abutting": 500,
                     "merge.signatures_ts.armed": 3000},
           "thorough": {"merge.fused_notes.armed": 200000, "c15.fusion_happened": 20000}}
